@@ -485,6 +485,17 @@ def generate(rng, tier):
                 rho = make_rho(rng, names, avoid=(word,))
                 rho[victim] = word
                 cases.append({"kind": kind, "rho": rho, "orig": o})
+    # ... names that are not identifiers (blanks, hyphens, dots, the punctuation of the signature grammar) for
+    # the axes and dimensions of stencil / cumsum / padding calls: a Grid's axes and a dataset's dimensions
+    # may be called anything
+    for word in ("lon-axis", "x.y", "my axis", "a:b", "(x)", "x,y", "-", "->", "1", "X:center"):
+        for kind, base in (("op", base1), ("cumsum", base9)):
+            o = copy.deepcopy(base[(len(cases) * 11) % len(base)])
+            names = ctor_names(o["ctor"]) + [d for d, _ in o["dims"]]
+            for victim in (o["call"]["axes"][0], o["dims"][0][0]):
+                rho = make_rho(rng, names, avoid=(word,))
+                rho[victim] = word
+                cases.append({"kind": kind, "rho": rho, "orig": o})
     # ... every word of the SGRID attribute grammar as the name of each dimension of an SGRID dataset in turn
     for word in ("padding", "high", "low", "both", "none", "padding:", "center"):
         if ":" in word:
